@@ -16,6 +16,7 @@
 #include <stdarg.h>
 #include <sys/socket.h>
 #include <sys/un.h>
+#include <sys/ioctl.h>
 #include "threadpool/threadpool.c"
 #include "threadpool/threadpool_msg_sys.c"
 #include "threadpool/threadpool_task.c"
@@ -129,6 +130,7 @@ typedef struct tk_s {
 	int owner;
 } tk_t;
 static tk_t g_tk[MAXTK];
+static volatile long g_activity;   /* bumped by every task-related step of a pool thread */
 static char g_tmpdir[512] = "/tmp";
 
 static tk_t *tk_by_fd(int fd) { for (int i = 0; i < MAXTK; i++) if (g_tk[i].used_slot && g_tk[i].fd == fd && fd >= 0) return &g_tk[i]; return NULL; }
@@ -159,6 +161,7 @@ void liblcb_verif_point(const char *label, const void *a, const void *b, uintptr
 		if (k >= 0) LOGEV("\"e\":\"ev.post\",\"k\":%d,\"o\":\"%s\",\"op\":%u,\"ev\":%u,\"fl\":%u", k, oname(o),
 		    (unsigned)(val & 0xff), (unsigned)((val >> 8) & 0xff), (unsigned)((val >> 16) & 0xffff));
 	}
+	if (0 == strcmp(label, "loop.cb") || 0 == strcmp(label, "ev.post")) { int o2; if (tk_obj(b, &o2) >= 0) __sync_fetch_and_add(&g_activity, 1); }
 	if (label[0] == 'l' || label[0] == 'e') perturb();
 	errno = saved_errno;
 }
@@ -213,6 +216,7 @@ int __wrap_timerfd_settime(int fd, int flags, const struct itimerspec *nv, struc
 static const char *fnname[] = { "recv", "send", "pread", "pwrite", "recvfrom" };
 static ssize_t io_call(tk_t *tk, int fn, int fd, void *buf, size_t len, int flags, off_t fo, struct sockaddr *sa, socklen_t *sl) {
 	perturb();
+	__sync_fetch_and_add(&g_activity, 1);
 	pthread_mutex_lock(&tk->mu);
 	size_t cap = len;
 	if (tk->ncap > 0) { int c = tk->caps[tk->capi % tk->ncap]; tk->capi++; if (c > 0 && (size_t)c < cap) cap = (size_t)c; }
@@ -310,7 +314,9 @@ static int task_cb(tp_task_p tptask, int error, io_buf_p buf, uint32_t eof, size
 	    tk->k, (tptask == tk->task && buf == &tk->buf) ? 1 : 0, error, (unsigned)eof, nn, tk->buf.size, tk->buf.used, tk->buf.offset,
 	    tk->buf.transfer_size, (long)tp_task_offset_get(tptask), cur ? (long)cur->thread_num : -1L, arr(1, tk->buf.data, tk->buf.size));
 	perturb();
-	int ret = run_policy(tk, cls);
+	int ret;
+	if (tk->cbs >= 40 && tk->task != NULL) { api_stop(tk); ret = TP_TASK_CB_NONE; }   /* a callback may always stop its task: bounds the log */
+	else ret = run_policy(tk, cls);
 	LOGEV("\"e\":\"taskcb.end\",\"k\":%d,\"ret\":%d", tk->k, ret);
 	if (error == ETIMEDOUT) tk->tmo_cbs++;
 	else if (error != 0) tk->err_cbs++;
@@ -477,7 +483,9 @@ static int tk_ops(const char *op, const char *args) {
 			LOGEV("\"e\":\"peer.close\",\"k\":%d,\"how\":\"shutwr\"", k);
 			shutdown(tk->pfd, SHUT_WR);
 		} else {
-			LOGEV("\"e\":\"peer.close\",\"k\":%d,\"how\":\"close\"", k);
+			int unread = 0;
+			if (tk->kind == K_STREAM) ioctl(tk->pfd, FIONREAD, &unread);
+			LOGEV("\"e\":\"peer.close\",\"k\":%d,\"how\":\"%s\"", k, (unread > 0) ? "reset" : "close");
 			close(tk->pfd); tk->pfd = -1;
 		}
 		pthread_mutex_unlock(&tk->mu);
@@ -527,7 +535,9 @@ static void exec_line(const char *actor, char *line) {
 			usleep(100);
 		}
 	} else if (!strcmp(op, "sleep")) { sscanf(args, "%d", &a); usleep((useconds_t)a);
-	} else if (!strcmp(op, "quiesce")) { do_quiesce(); LOGEV("\"e\":\"quiesce\"");
+	} else if (!strcmp(op, "quiesce")) { /* until two sentinel round trips pass without any task step in between (bounded) */
+		for (int i = 0; i < 200; i++) { long a0 = g_activity; do_quiesce(); if (g_activity == a0) break; }
+		LOGEV("\"e\":\"quiesce\"");
 	} else if (!strcmp(op, "shutdown")) { tp_shutdown(g_tp);
 	} else if (!strcmp(op, "shutdown_wait")) { tp_shutdown_wait(g_tp);
 	} else if (!strcmp(op, "destroy")) { tp_destroy(g_tp); g_tp = NULL;
